@@ -11,6 +11,7 @@ EXPLANATION = ('Representability: every usize->u8 narrowing of a child count on 
                'addresses and on their error checks; the dereference walk takes the tree write guard and reads a node\'s children before it can free it; '
                'slot claims update filled/last_removed under the free-list lock and mark the header dirty; in-memory ref-count cache and free lists are '
                'built only after log replay.')
+EXPLANATION += ' Added: caches are built after replay; address overlay removals are owner-guarded; recursion audit (the removal walk keeps an explicit stack); no constant-range slice of a client key; keyed changes are planned before node changes; known finding F21 (tree lock taken after the check).'
 ASSUMPTIONS = ['tree shape/sharing semantics over histories are not decided', 'reviewed: claim_node narrows only after prepare_node validated the same node (order obligation 1c)', 'unwind edges ignored']
 TRUSTED = ['rustc MIR construction (nightly)', 'pdb-facts driver', 'rule engine /verif/rules', 'anchor tables in props/C10.py']
 
